@@ -1892,6 +1892,98 @@ func ruleOpArity(prog *Program, rep *Report) {
 			}
 		}
 	}
+	// every other switch over the operator code whose default clause handles two operands (it mentions both
+	// self-typed pointer fields of its receiver, e.left and e.right) lists each one-operand operator in a clause
+	// of its own: one that falls to the default gets a second operand it does not have
+	for _, f := range pk.Syntax {
+		for _, d := range f.Decls {
+			fd, ok := d.(*ast.FuncDecl)
+			if !ok || fd.Body == nil || fd.Recv == nil || len(fd.Recv.List) != 1 || len(fd.Recv.List[0].Names) != 1 {
+				continue
+			}
+			recv := info.Defs[fd.Recv.List[0].Names[0]]
+			if recv == nil {
+				continue
+			}
+			// self-typed pointer fields of the receiver's struct
+			var selfFields []string
+			rt := recv.Type()
+			if p, ok := rt.(*types.Pointer); ok {
+				if st, ok := p.Elem().Underlying().(*types.Struct); ok {
+					for i := 0; i < st.NumFields(); i++ {
+						if types.Identical(st.Field(i).Type(), rt) {
+							selfFields = append(selfFields, st.Field(i).Name())
+						}
+					}
+				}
+			}
+			if len(selfFields) != 2 {
+				continue
+			}
+			ast.Inspect(fd.Body, func(nd ast.Node) bool {
+				sw, ok := nd.(*ast.SwitchStmt)
+				if !ok || sw.Tag == nil {
+					return true
+				}
+				tagSel, ok := ast.Unparen(sw.Tag).(*ast.SelectorExpr)
+				if !ok || info.Uses[tagSel.Sel] != tagField {
+					return true
+				}
+				listed := map[types.Object]bool{}
+				var def *ast.CaseClause
+				for _, c := range sw.Body.List {
+					cc := c.(*ast.CaseClause)
+					if cc.List == nil {
+						def = cc
+						continue
+					}
+					for _, e := range cc.List {
+						if sel, ok := ast.Unparen(e).(*ast.SelectorExpr); ok {
+							if id, ok := ast.Unparen(sel.X).(*ast.Ident); ok {
+								listed[info.Uses[id]] = true
+							}
+						}
+					}
+				}
+				if def == nil || len(listed) < 2 {
+					return true
+				}
+				both := 0
+				for _, fn := range selfFields {
+					found := false
+					for _, st := range def.Body {
+						ast.Inspect(st, func(k ast.Node) bool {
+							if sel, ok := k.(*ast.SelectorExpr); ok && sel.Sel.Name == fn {
+								if id, ok := ast.Unparen(sel.X).(*ast.Ident); ok && info.Uses[id] == recv {
+									found = true
+								}
+							}
+							return true
+						})
+					}
+					if found {
+						both++
+					}
+				}
+				if both != 2 {
+					return true
+				}
+				name := enclosingFuncName(f, fd.Pos())
+				for v, sc := range scalars {
+					if sc[cntField.Name()] != "1" {
+						continue
+					}
+					key := "jp." + name + ":one-operand:" + names[v]
+					if listed[v] {
+						rep.Discharge("M-arity", key, prog.Pos(sw.Pos()), "has a clause of its own")
+					} else {
+						rep.Violate(Finding{Rule: "M-arity", Key: key, Pos: prog.Pos(sw.Pos()), Msg: fmt.Sprintf("%s handles operators by code; its default clause handles two operands, and the one-operand operator %s is in no other clause: it is given a second operand it does not have", name, names[v])})
+					}
+				}
+				return true
+			})
+		}
+	}
 	rep.Eval(n)
 	if n < 15 {
 		rep.Errorf("M-arity examined %d operators (floor 15)", n)
@@ -4279,4 +4371,99 @@ func walk(x []Frag, stack []int) (out []Frag) {
 func ruleIndexSync(prog *Program, rep *Report, floor int, rels ...string) {
 	rep.Rules = append(rep.Rules, "B-popsync: in a function that derives the current fragment from a fragment index by F = X[I] (X a path), every assignment of I inside a loop is directly followed by that derivation ("+strings.Join(rels, ", ")+")")
 	runSynRule(prog, rep, "B-popsync", rels, matchIndexSync, fixtureIndexSync, 1, floor)
+}
+
+// ---------------------------------------------------------------- N-digitbuf
+
+// matchDigitBuf: a loop that peels decimal digits off an integer (x /= 10) and stores them in a local array of
+// fixed size needs room for every digit the integer's type can have: 19 for int and int64, 20 for uint and
+// uint64, 10 for the 32-bit types. A shorter array panics for the largest values only.
+func matchDigitBuf(files []*ast.File, info *types.Info) (sites []synSite, examined int) {
+	need := func(t types.Type) int {
+		b, ok := t.Underlying().(*types.Basic)
+		if !ok {
+			return 0
+		}
+		switch b.Kind() {
+		case types.Int, types.Int64:
+			return 19
+		case types.Uint, types.Uint64, types.Uintptr:
+			return 20
+		case types.Int32, types.Uint32:
+			return 10
+		case types.Int16, types.Uint16:
+			return 5
+		case types.Int8, types.Uint8:
+			return 3
+		}
+		return 0
+	}
+	for _, f := range files {
+		ast.Inspect(f, func(n ast.Node) bool {
+			fs, ok := n.(*ast.ForStmt)
+			if !ok {
+				return true
+			}
+			digits := 0
+			ast.Inspect(fs.Body, func(k ast.Node) bool {
+				as, ok := k.(*ast.AssignStmt)
+				if !ok || as.Tok != token.QUO_ASSIGN || len(as.Rhs) != 1 {
+					return true
+				}
+				if tv, ok := info.Types[as.Rhs[0]]; ok && tv.Value != nil && tv.Value.ExactString() == "10" {
+					if d := need(info.TypeOf(as.Lhs[0])); d > digits {
+						digits = d
+					}
+				}
+				return true
+			})
+			if digits == 0 {
+				return true
+			}
+			ast.Inspect(fs.Body, func(k ast.Node) bool {
+				as, ok := k.(*ast.AssignStmt)
+				if !ok || len(as.Lhs) != 1 {
+					return true
+				}
+				ix, ok := as.Lhs[0].(*ast.IndexExpr)
+				if !ok {
+					return true
+				}
+				arr, ok := info.TypeOf(ix.X).Underlying().(*types.Array)
+				if !ok {
+					return true
+				}
+				examined++
+				if int(arr.Len()) < digits {
+					name := enclosingFuncName(f, fs.Pos())
+					sites = append(sites, synSite{pos: as.Pos(), file: f, key: fmt.Sprintf("%s:digit-array-%d-of-%d", name, arr.Len(), digits),
+						msg: fmt.Sprintf("%s stores the decimal digits of an integer that can have %d of them in an array of %d: the largest values index past its end", name, digits, arr.Len())})
+				}
+				return true
+			})
+			return true
+		})
+	}
+	return
+}
+
+const fixtureDigitBuf = `package fixture
+
+func appendInt(buf []byte, i int) []byte {
+	num := [18]byte{}
+	cnt := 0
+	for ; i != 0; cnt++ {
+		num[cnt] = byte(i%10) + '0'
+		i /= 10
+	}
+	for cnt--; 0 <= cnt; cnt-- {
+		buf = append(buf, num[cnt])
+	}
+	return buf
+}
+`
+
+func ruleDigitBuf(prog *Program, rep *Report, floor int, rels ...string) {
+	rep.Rules = append(rep.Rules, "N-digitbuf: a fixed-size array that a loop fills with the decimal digits of an integer (x /= 10) has room for every digit of the integer's type ("+strings.Join(rels, ", ")+")")
+	runSynRule(prog, rep, "N-digitbuf", rels, matchDigitBuf, fixtureDigitBuf, 1, floor)
 }
